@@ -108,7 +108,7 @@ CHECKS["C14"] = dict(
          "equal the content (prefix + one exception for a failing reader; nothing + one exception for unsupported types); and the helpers "
          "ToBytes/ToReader/CountOf/NewByteReader/StealBytes over the same carriers against io.ReadAll-style references. "
          "Non-trivial = size > 1024, a short/EOF-with-data/failing reader, a buffer-reusing WriterTo, or an unsupported type.",
-    required=["mode:head", "mode:tobytes", "mode:toreader", "mode:countof", "mode:bytereader", "mode:stealbytes", "channel:sync", "channel:queued",
+    required=["carrier:bbalias", "prelude:ctxwrite1-expired", "prelude:ctxwritev-expired", "mode:head", "mode:tobytes", "mode:toreader", "mode:countof", "mode:bytereader", "mode:stealbytes", "channel:sync", "channel:queued",
               "bytes:>1024", "bb:>1024", "buffer:>1024", "breader:>1024", "reader:>1024", "short:>1024", "eofdata:>1024", "wtN:>1024", "netbuffers:>1024",
               "reader:<=1024", "carrier:errafter", "carrier:string", "carrier:nil", "carrier:httpreq", "carrier:bufio", "carrier:wtReuse"],
     assumptions=["a byte returned by ReadByte together with an error counts as not delivered (io.ByteReader contract)",
@@ -337,7 +337,7 @@ CHECKS["C13"] = dict(
          "closed and no Accept is outstanding; every started accept loop returned exactly once, with ErrServerClosed unless the listener "
          "was closed explicitly before; every channel's transport closed exactly once, active at most once and before inactive, inactive "
          "exactly once. Non-trivial = Shutdown ran while an accept-loop start or an accepted-but-not-yet-activated connection was held.",
-    required=["overlap:accept-loop-not-started", "overlap:accepted-not-yet-active", "shutdown:first", "shutdown:middle", "shutdown:last",
+    required=["accept-in-flight", "overlap:accept-returned-a-connection-after-shutdown", "write-blocked-in-transport", "overlap:accept-loop-not-started", "overlap:accepted-not-yet-active", "shutdown:first", "shutdown:middle", "shutdown:last",
               "listener-closed-before-shutdown", "channels", "late-release", "inbound-handed", "slow-listen"],
     assumptions=["user code closes only channels that were handed out (activated)", "the holder is observed through its effects (every channel closed), not its map"],
 )
